@@ -25,8 +25,26 @@ def cfgOf (s : String) : Cfg := fastCfg (s != "n")
 
 /-! ## run mode -/
 
+/-- `ri m` lines switch the harness's callbacks to "call the API from inside" (DESIGN.md §3.6) -/
+def riOf (line : String) : Option Nat :=
+  match (line.trimAscii.toString.splitOn " ").filter (· ≠ "") with
+  | ["ri", n] => n.toNat?
+  | _ => none
+
+/-- one harness operation under re-entrancy mode `reent`: the nested-call model for the modelled modes
+(`RdsModel.Reentrant`; equal to `mstep` for mode 0 by `mstepH_noop`), the plain model otherwise -/
+def mstepR (cfg : Cfg) (reent : Nat) (w : World) (m : MOp) : World × List Event × Bool :=
+  if reent = 0 then mstep cfg w m else
+  match handlerOfMode reent with
+  | some h =>
+    -- the harness reads the "own" value of an event after the nested call was made
+    let r := mstepH cfg h w m
+    (r.1, r.2.1.map (fun e => { e with snap := h e e.snap }), r.2.2)
+  | none => mstep cfg w m
+
 structure Drv where
   w : World := World.init
+  reent : Nat := 0
   prev : Array (Option Obs) := Array.replicate numSlots none
   k : Nat := 0
 
@@ -53,13 +71,13 @@ def actOf (w : World) (line : String) : Act :=
 /-- lines printed for one op line; mirrors `harness.c` -/
 def drvStep (cfg : Cfg) (d : Drv) (line : String) : Drv × List String :=
   let k := d.k
-  let d := { d with k := k + 1 }
+  let d := { d with k := k + 1, reent := (riOf line).getD d.reent }
   let cur := d.w.cur
   match actOf d.w line with
   | .bad => (d, [s!"O {k} {cur} 1", "X bad op line"])
   | .emptySlot => (d, [s!"O {k} {cur} 1", "X op on empty slot"])
   | .go m fresh =>
-    let r := mstep cfg d.w m
+    let r := mstepR cfg d.reent d.w m
     let w' := r.1
     let cur' := w'.cur
     let head := s!"O {k} {cur'} {b2s r.2.2}"
@@ -98,6 +116,7 @@ partial def runLoop (cfg : Cfg) (h : IO.FS.Stream) (out : IO.FS.Stream) (d : Drv
 
 structure Chk where
   w : World := World.init
+  reent : Nat := 0
   impl : Array (Option Obs) := Array.replicate numSlots none
   mons : Array Mon := Array.replicate numSlots Mon.init
   /-- memo of the C16 verdict per slot (recomputed only when a text changed) -/
@@ -170,7 +189,7 @@ def tabs (cfg : Cfg) : Tabs := ⟨cfg, Generated.countryCount⟩
 /-- process one op: returns the new state and the report lines -/
 def chkStep (cfg : Cfg) (c : Chk) (opLine : String) (rec : String × List String) (limit : Nat) : Chk × List String :=
   let k := c.k
-  let c := { c with k := k + 1 }
+  let c := { c with k := k + 1, reent := (riOf opLine).getD c.reent }
   let cur := c.w.cur
   let (oline, body) := rec
   let xs := body.filter (·.startsWith "X")
@@ -181,7 +200,7 @@ def chkStep (cfg : Cfg) (c : Chk) (opLine : String) (rec : String × List String
   | .emptySlot, _ => (c, [s!"ERR {k} op on empty slot: {opLine}"])
   | _, none => (c, [s!"ERR {k} malformed trace record: {oline}"])
   | .go m fresh, some (ik, iinst, iret) =>
-    let r := mstep cfg c.w m
+    let r := mstepR cfg c.reent c.w m
     let w' := r.1
     let cur' := w'.cur
     let hdr := (if ik != k then [s!"ERR {k} trace op index {ik}"] else []) ++
